@@ -3,7 +3,7 @@ register("C15",
     "Exact structural rules, each a necessary condition of memory safety on valid use: constructor-initialisation completeness of scalar "
     "members over all constructors of all classes (CFG dataflow), destructor releases what the class allocates, router-owned objects are "
     "deleted only under the destructor guard, no iterator use after erase. Decides those clauses for every path/constructor/call site; "
-    "does not decide absence of all UB for all API histories.",
+    "does not decide absence of all UB for all API histories. Added: destructor drain loops, no address of a local stored in a member, Edge::getRoute writes within its arrays, ActionInfo identity.",
     "Trusted: clang 14 AST/CFG; reviewed exception tables under tables/ (each entry with a reason); exceptional (throwing) paths are out of scope.",
     "custom dataflow / typestate lints over the type-resolved clang AST, CFG and call graph (libTooling extractor + Python rules)",
     "DESIGN.md §5 C15")
@@ -12,7 +12,7 @@ register("C16",
     "inBetween, colinear, inValidRegion, cornerSide, segmentShapeIntersect, segmentIntersectPoint classification, inPoly, inPolyGen, "
     "libvpsc LineSegment::Intersect) is extracted by symbolic interpretation of its syntax tree (coordinates are polynomial symbols, "
     "branches are signs of integer polynomials) and shown equal to an independent exact-arithmetic definition on every realisable sign "
-    "class of an integer grid, all degenerate configurations included. Intersection *coordinates* (rounded rationals) are not decided.",
+    "class of an integer grid, all degenerate configurations included. Intersection *coordinates* (rounded rationals) are not decided. Added: returned intersection points satisfy both line equations identically.",
     "Trusted: the interpreter (engine/microai), the reference definitions in engine/props/c16.py, integer-valued inputs (a tolerance |t|<1 "
     "folds into the sign atoms), polygon sizes n=3,4; grid side 4-6 decides realisability.",
     "abstract interpretation of the clang AST over a sign-atom domain (path-enumerating symbolic evaluation, no execution), decision-table "
@@ -24,7 +24,7 @@ register("C01",
     "iteration can skip the test, the failing branch always throws); solve() only returns through satisfy()/refine()/copyResult(); "
     "slack() is +DBL_MAX for flagged constraints and right-gap-left otherwise (symbolic identity); only the reviewed functions write "
     "Constraint::unsatisfiable / Variable::finalPosition; the two solver copies agree function by function. Does not decide that "
-    "merging/splitting reaches feasibility, the iff-infeasible clause, or finiteness.",
+    "merging/splitting reaches feasibility, the iff-infeasible clause, or finiteness. Added after seeded rounds: the needsScaling flag covers every constraint ending on a scaled variable (constructor + addConstraint interpreted over all scale patterns).",
     "Trusted: clang CFG without exception edges; tables/c01_writers.json and tables/siblings.json (reviewed, with reasons).",
     "CFG dominance / must-pass-through rules, who-writes over the resolved AST, symbolic evaluation of slack(), sibling structural comparison",
     "DESIGN.md §5 C01")
@@ -32,7 +32,7 @@ register("C02",
     "Optimality itself is numerical and not decided. Decided, by symbolic interpretation of the solver's arithmetic kernels in both copies: "
     "block placement is the least-squares stationary point (rational identity for 1-3 scaled variables), dfdv()/cost() have the objective's "
     "form, and compute_dfdv (both overloads) assigns multipliers satisfying KKT stationarity at every non-root variable of chain/fork "
-    "block trees; plus function-by-function agreement of the two solver copies.",
+    "block trees; plus function-by-function agreement of the two solver copies. Added: IncSolver::solve keeps iterating while the last pass split a block (repaired defect); KKT stationarity of the computed multipliers for unequal scales.",
     "Trusted: engine/microai; positivity of weights/scales (zero-denominator paths are outside the precondition); shapes up to 4 variables.",
     "abstract interpretation over exact rational functions (symbolic KKT identities) + sibling structural comparison",
     "DESIGN.md §5 C02")
@@ -49,7 +49,7 @@ register("C18",
     "with type swap iff axes swap, shown equal to the documented geometric matrix and -- for rotations -- to the maps the Graph applies to "
     "node centres and route points; group laws of D4; addSep(d,g);transform(T) == addSep(T(d),g) for all 8x7x2x2 cases; enum tables "
     "(negateSepDir, weakening/strengthening, conversions, cardFlip, getCardinalDir) over all enumerators; gaps only negated by unary minus; "
-    "the flippedRetrieval contract of the two deep-layer retrieval methods on every path. TGLF text round trip is not decided.",
+    "the flippedRetrieval contract of the two deep-layer retrieval methods on every path. TGLF text round trip is not decided. Added: TGLF writer/reader round trip, VPSC constraint generated from a stored separation (both dimensions alike), distinct node ids in Graph::writeTglf(true).",
     "Trusted: engine/microai; the documented meaning of the flips (constraints.h) encoded as matrices in engine/props/c18.py.",
     "abstract interpretation over finite enum domains and affine gap symbols; CFG must-precede rule; who-writes / reader-provenance rules",
     "DESIGN.md §5 C18")
@@ -71,7 +71,7 @@ register("C05",
     "extracted symbolically) never exceeds the free-plane minimum bend count and never reaches its assertion; the direction tables are "
     "the rotations of the 4-cycle; estimatedCostSpecific returns exactly euclideanDist for polyline and manhattanDist + k*segmentPenalty "
     "with k <= the minimum bends over the allowed arrival directions for orthogonal routing; turn pruning always exempts end points. "
-    "Does not decide completeness of the scan-line graph, axis-parallelism of all output segments, or optimality of the search.",
+    "Does not decide completeness of the scan-line graph, axis-parallelism of all output segments, or optimality of the search. Added: A* heap discipline; Node::isInsideShape strictness; x/y turn-pruning blocks and forward/reverse visibility-flag passes are mirror images.",
     "Trusted: engine/microai; the 0-1 BFS reference for minimum bends in the free plane (engine/props/c05.py).",
     "abstract interpretation of the clang AST over finite direction sets and sign atoms (decision tables) compared with a BFS reference",
     "DESIGN.md §5 C05")
@@ -81,7 +81,7 @@ register("C03",
     "conditions) with the cone tests applied to the right vertices; firstBlocker and newBlockingShape test every obstacle side "
     "(prev(k),k) / (i,i+1 mod n) with a per-shape / per-edge end-point state and report/remove exactly on a hit; the straight-line fallback "
     "is taken only when the search found no path; route ends are written from the source/destination vertices. Does not decide the "
-    "geometric adequacy of the sweep / orthogonal scan, nor nudging.",
+    "geometric adequacy of the sweep / orthogonal scan, nor nudging. Added: both producers of Router::contains test routingPolygon(); movement limits are only tightened; scan-line helper mirrors.",
     "Trusted: clang AST/CFG; tables/c03_setdist_callers.json (reviewed producers of dummy / orthogonal edges).",
     "who-calls + guarded-by rules (propositional entailment over path conditions), CFG must-pass-through, semantic template match",
     "DESIGN.md §5 C03")
@@ -90,7 +90,7 @@ register("C04",
     "euclideanDist (symbolic), f = g + h at every store, g accumulates parent g + cost(edge length), heap order is ANodeCmp whose decision "
     "table is a min-heap on f with tolerance and time-stamp tie-break, PENDING entries are only replaced by cheaper ones, cost() is the "
     "edge length when all penalties are zero and length + {0,1,2}*segmentPenalty otherwise, stored edge lengths are Euclidean. Does not "
-    "decide that the visibility graph contains a shortest path or that pruning keeps one.",
+    "decide that the visibility graph contains a shortest path or that pruning keeps one. Added: the C16 decision tables of inValidRegion / cornerSide / vecDir (which visibility edges exist); bend validity is direction-symmetric; blocker bookkeeping; heap discipline.",
     "Trusted: engine/microai; angle classes of angleBetween abstracted to {0, (0,pi), pi}.",
     "symbolic interpretation (decision tables) of heuristic / comparator / cost + who-writes rules on the A* node fields",
     "DESIGN.md §5 C04")
@@ -100,7 +100,7 @@ register("C07",
     "preceded by generation from all compound and extra constraints into the projected set, that project() solves and publishes all n "
     "positions, that checkUnsatisfiable reports exactly the flagged constraints, and that no size-changing writer of a node rectangle is "
     "reachable from the layout entry points. Does not decide numerical satisfaction to 1e-4 or NaN-freeness. The uninitialised "
-    "DistributionConstraint::sep is a known finding reported under C15.",
+    "DistributionConstraint::sep is a known finding reported under C15. Added: the makeFeasible protocol (add-then-satisfy, whole-set scan for flagged constraints, rollback, saved positions); exact unsatisfiable report.",
     "Trusted: clang AST/CFG/call graph; exempt classes (OrthogonalEdgeConstraint, PageBoundaryConstraints) per the code's own comments.",
     "sibling comparison of constraint-construction shapes (normal forms + path conditions), CFG must-precede, call-graph reachability",
     "DESIGN.md §5 C07")
@@ -110,7 +110,7 @@ register("C17",
     "{1..4}^k satisfying it, and the leaves must partition the assignments (triangle, path+isolated node, parallel and reversed-parallel "
     "edges, self-loop, unit weights, square+chord): exact lengths, zero diagonal, symmetry, the unreachable sentinel. "
     "ConstrainedFDLayout::computePathLengths is checked the same way for scaling, sentinel, adjacency classes and replacement of "
-    "non-positive lengths. Does not decide larger graphs beyond these shapes nor floating-point rounding.",
+    "non-positive lengths. Does not decide larger graphs beyond these shapes nor floating-point rounding. Added: all branch conditions are forms in the weights without constant term (no absolute tolerance); multigraph shapes; unreachable entries.",
     "Trusted: engine/microai incl. its model of std::vector / valarray / the PairingHeap code it interprets; weights bounded far below DBL_MAX.",
     "symbolic interpretation (decision trees over path-length comparisons) vs Bellman-Ford reference on enumerated small weights",
     "DESIGN.md §5 C17")
@@ -120,7 +120,7 @@ register("C11",
     "before every rerouting round; temporary pin visibility is removed on every path of generatePath; checkpoint direction masks are "
     "restored whenever they were applied; every function that replaces a shape's geometry repositions all of its pins; pin positions are "
     "the documented affine functions of the shape's bounding box (symbolic); default pin directions follow the attachment position. "
-    "Does not decide that the cheapest pin is chosen nor numeric end-point equality after moves.",
+    "Does not decide that the cheapest pin is chosen nor numeric end-point equality after moves. Added: pins repositioned from the shape's own polygon; updatePositionAndVisibility refreshes everything on every path; queued end-point changes (user vs pin-follow) interpreted on all short sequences.",
     "Trusted: clang AST/CFG; engine/microai; offsetBoundingBox abstracted to a symbolic box.",
     "guarded-by entailment, who-writes, CFG pairing rules, symbolic affine evaluation of pin positions, finite direction table",
     "DESIGN.md §5 C11")
@@ -130,7 +130,7 @@ register("C08",
     "iff the rectangles overlap in the other dimension, ordered by centre, with gap = sum of the half extents of that dimension, creator "
     "recorded; all libcola addShape call sites pass width/2, height/2 of the same rectangle and cover all indices; the non-overlap object is "
     "appended to extraConstraints whenever requested and a containment constraint is created for every non-root cluster. Does not decide "
-    "that the constraints remove all overlap for all inputs nor the cluster containment numerics.",
+    "that the constraints remove all overlap for all inputs nor the cluster containment numerics. Added: exemption groups, cluster/cluster and cluster/shape constraint forms, cluster bounding rectangles and boundary-variable numbering (interpreted on small hierarchies).",
     "Trusted: engine/microai incl. its std::list/map/set model; cluster-bounded shapes are not interpreted (plain shapes only).",
     "abstract interpretation (object-level) of the constraint generator + guarded-by / loop-coverage rules",
     "DESIGN.md §5 C08")
@@ -140,7 +140,7 @@ register("C10",
     "path conditions incl. early exits); a fixed segment's points are never written, a free segment writes the clamped solver position to "
     "exactly one coordinate of exactly its own points (symbolic); fixed segments get the fixed weight/id, zig-zags the channel middle; no "
     "function reachable from the nudging entry point changes the number of points of a route; low/high and above/below helpers stay mirror "
-    "images. Does not decide separation distances, channel-width reasoning or the ordering of nudged segments.",
+    "images. Does not decide separation distances, channel-width reasoning or the ordering of nudged segments. Added: movement limits only tightened; nudging regions closed under overlapsWith; the pair-constraint loop carries no state; checkpoint cache complete.",
     "Trusted: clang AST/CFG/call graph; engine/microai; the displayRoute()/router accessors are abstracted by hooks.",
     "guarded-by entailment with early-exit guards, symbolic evaluation of the position write-back, call-graph closure rule, mirror siblings",
     "DESIGN.md §5 C10")
@@ -194,7 +194,7 @@ register("C14",
     "Weak but exact: along every path of doHOLA the padding applied to the caller's nodes sums to zero for core nodes and for non-root tree "
     "nodes (abstract execution over polynomial padding sums), padding primitives add exactly (dw,dh) to every intended node, every routing "
     "adapter of the pipeline is orthogonal, node dimensions are only written by the reviewed setters. Everything else the statement says "
-    "(no overlaps, routes avoid nodes, returned constraints satisfied) is a numerical pipeline result and is not decided.",
+    "(no overlaps, routes avoid nodes, returned constraints satisfied) is a numerical pipeline result and is not decided. Added: final-rotation consistency (layout options, SepMatrix transform, turn count); Tree::flip / translate keep bounds and nodes together.",
     "Trusted: node classes (core nodes shared with the working copy; per-tree non-root node sets disjoint) as documented in hola.cpp.",
     "abstract interpretation of doHOLA over an additive padding domain + who-writes / constructor-argument rules",
     "DESIGN.md §5 C14")
